@@ -143,6 +143,15 @@ func (ed *errDisc) isCarrierSite(c ssa.CallInstruction) bool {
 			return true
 		}
 	}
+	// an iterator handed a callback that can fail with a write error returns that error (walletdb's ForEach and the
+	// repo's forEach* helpers hand the callback's error back): the iteration call is then a carrier site itself
+	if cc.IsInvoke() && cc.Method.Name() == "ForEach" && cc.Method.Pkg() != nil && cc.Method.Pkg().Path() == walletdbPath {
+		for _, cl := range funcArgs(c) {
+			if ed.carriers[cl] {
+				return true
+			}
+		}
+	}
 	if !cc.IsInvoke() && cc.StaticCallee() == nil {
 		// call of a function value: a parameter/free variable inside the
 		// walletdb adapters (f(tx)), or a closure value
